@@ -335,6 +335,14 @@ func Eq(a, b *Term) *Term {
 	if b.Op == "ite" && (a.IsConst() || a.Op == "strlit") {
 		return Eq(b, a)
 	}
+	// x + c1 == x + c2  (same base): decided by the constants
+	if a.S.Kind == 1 {
+		ab, ac := splitAdd(a)
+		bb, bc := splitAdd(b)
+		if ab == bb && (a.Op == "bvadd" || b.Op == "bvadd") {
+			return BoolC(ac&mask(a.S.W) == bc&mask(a.S.W))
+		}
+	}
 	// zext(x) == const
 	if a.Op == "zext" && b.IsConst() {
 		w := a.Args[0].S.W
@@ -351,6 +359,14 @@ func Eq(a, b *Term) *Term {
 	}
 	return mk("=", BoolS, 0, "", 0, 0, a, b)
 }
+// splitAdd views t as base + constant
+func splitAdd(t *Term) (*Term, uint64) {
+	if t.Op == "bvadd" && t.Args[1].IsConst() {
+		return t.Args[0], t.Args[1].Val
+	}
+	return t, 0
+}
+
 func isLit(t *Term) bool { return t.IsConst() || t.Op == "strlit" }
 
 func bin(op string, a, b *Term) *Term {
